@@ -48,7 +48,8 @@ namespace BitSerializer::Detail
 		}
 		else
 		{
-			outTimestamp.Seconds = std::chrono::duration_cast<std::chrono::seconds>(epochTime).count();
+			// Round toward negative infinity, the nanoseconds part must be in the range 0..999999999
+			outTimestamp.Seconds = std::chrono::floor<std::chrono::seconds>(epochTime).count();
 			const auto leftTime = epochTime - std::chrono::duration_cast<TDuration>(std::chrono::seconds(outTimestamp.Seconds));
 			outTimestamp.Nanoseconds = static_cast<int32_t>(std::chrono::duration_cast<std::chrono::nanoseconds>(leftTime).count());
 		}
@@ -57,9 +58,18 @@ namespace BitSerializer::Detail
 	template <typename TClock, typename TDuration>
 	void To(const CBinTimestamp& timestamp, std::chrono::time_point<TClock, TDuration>& outTimePoint)
 	{
+		// Negative time is stored as floored seconds plus positive nanoseconds, convert back to truncated seconds
+		// plus negative remainder (prevents an overflow of intermediate result for values close to the minimum)
+		auto seconds = timestamp.Seconds;
+		auto nanoseconds = timestamp.Nanoseconds;
+		if (seconds < 0 && nanoseconds > 0)
+		{
+			++seconds;
+			nanoseconds -= 1000000000;
+		}
 		outTimePoint = std::chrono::time_point<TClock, TDuration>(
-			Convert::Detail::SafeDurationCast<TDuration>(std::chrono::seconds(timestamp.Seconds)));
-		if (timestamp.Nanoseconds)
+			Convert::Detail::SafeDurationCast<TDuration>(std::chrono::seconds(seconds)));
+		if (nanoseconds)
 		{
 			// When duration period is greater than seconds (allowed rounding only seconds fractions)
 			if constexpr (std::ratio_greater_v<typename TDuration::period, std::chrono::seconds::period>)
@@ -69,7 +79,7 @@ namespace BitSerializer::Detail
 			else
 			{
 				// Only seconds fractions can be rounded to target type
-				auto leftTime = std::chrono::round<TDuration>(std::chrono::nanoseconds(timestamp.Nanoseconds));
+				auto leftTime = std::chrono::round<TDuration>(std::chrono::nanoseconds(nanoseconds));
 				Convert::Detail::SafeAddDuration(outTimePoint, leftTime);
 			}
 		}
@@ -88,7 +98,8 @@ namespace BitSerializer::Detail
 		}
 		else
 		{
-			outTimestamp.Seconds = std::chrono::duration_cast<std::chrono::seconds>(duration).count();
+			// Round toward negative infinity, the nanoseconds part must be in the range 0..999999999
+			outTimestamp.Seconds = std::chrono::floor<std::chrono::seconds>(duration).count();
 			const auto leftTime = duration - std::chrono::duration_cast<std::chrono::duration<TRep, TPeriod>>(std::chrono::seconds(outTimestamp.Seconds));
 			outTimestamp.Nanoseconds = static_cast<int32_t>(std::chrono::duration_cast<std::chrono::nanoseconds>(leftTime).count());
 		}
@@ -99,8 +110,17 @@ namespace BitSerializer::Detail
 	{
 		using TDuration = std::chrono::duration<TRep, TPeriod>;
 
-		outDuration = Convert::Detail::SafeDurationCast<TDuration>(std::chrono::seconds(timestamp.Seconds));
-		if (timestamp.Nanoseconds)
+		// Negative time is stored as floored seconds plus positive nanoseconds, convert back to truncated seconds
+		// plus negative remainder (prevents an overflow of intermediate result for values close to the minimum)
+		auto seconds = timestamp.Seconds;
+		auto nanoseconds = timestamp.Nanoseconds;
+		if (seconds < 0 && nanoseconds > 0)
+		{
+			++seconds;
+			nanoseconds -= 1000000000;
+		}
+		outDuration = Convert::Detail::SafeDurationCast<TDuration>(std::chrono::seconds(seconds));
+		if (nanoseconds)
 		{
 			// When duration period is greater than seconds (allowed rounding only seconds fractions)
 			if constexpr (std::ratio_greater_v<TPeriod, std::chrono::seconds::period>)
@@ -110,7 +130,7 @@ namespace BitSerializer::Detail
 			else
 			{
 				// Only seconds fractions can be rounded to target type
-				Convert::Detail::SafeAddDuration(outDuration, std::chrono::round<TDuration>(std::chrono::nanoseconds(timestamp.Nanoseconds)));
+				Convert::Detail::SafeAddDuration(outDuration, std::chrono::round<TDuration>(std::chrono::nanoseconds(nanoseconds)));
 			}
 		}
 	}
